@@ -12,6 +12,7 @@ import SsqlVerif.Proofs.WatermarkSources
 import SsqlVerif.Proofs.TumblingHist
 import SsqlVerif.Proofs.SlidingLate
 import SsqlVerif.Proofs.SessionLate
+import SsqlVerif.Proofs.SlidingLateRun
 import SsqlVerif.Generated.Facts
 set_option autoImplicit false
 
@@ -203,6 +204,42 @@ theorem sliding_every_open_window_redelivered (s : SlidingLate.SWL) (r : Tumblin
     ∃ e ∈ (SlidingLate.stepAdd s r now none).2, e.start = f.start ∧ e.kind = .late :=
   SlidingLate.every_open_window_redelivered s r now none hl hlat f hf hin hop
 
+/-- **Sliding late update, every history.** In every reachable state (any interleaving of Adds, ticker updates, pops and
+trigger-loop iterations from the start, ALLOWEDLATENESS > 0): a late row that lies inside an interval `e` delivered before
+(`e.start ≤ ts < e.start + size`), arriving while the watermark has not passed `e.stop + ALLOWEDLATENESS`, re-delivers
+that interval. -/
+theorem sliding_late_row_redelivered_run (size slide ooo lateness : Int) (hl : 0 < lateness) (ops : List Sliding.Op)
+    (e : Tumbling.Emission) (he : e ∈ (SlidingLate.run (SlidingLate.init size slide ooo lateness) ops).2) (hfirst : e.kind = .first)
+    (r : Tumbling.Row) (now : Int)
+    (hin : Tumbling.inSlot (SlidingLate.run (SlidingLate.init size slide ooo lateness) ops).1.base.size e.start r = true)
+    (hlate : Sliding.lateNow (SlidingLate.run (SlidingLate.init size slide ooo lateness) ops).1.base r now = true)
+    (hopen : ∀ c, (Sliding.wmAfter (SlidingLate.run (SlidingLate.init size slide ooo lateness) ops).1.base r now).cur = some c →
+      c < e.stop + lateness) :
+    ∃ e' ∈ (SlidingLate.stepAdd (SlidingLate.run (SlidingLate.init size slide ooo lateness) ops).1 r now none).2,
+      e'.start = e.start ∧ e'.kind = .late := by
+  have hlat : (SlidingLate.run (SlidingLate.init size slide ooo lateness) ops).1.lateness = lateness := by
+    rw [SlidingLate.run_lateness]; rfl
+  have hreg := SlidingLate.reg_run (SlidingLate.init size slide ooo lateness) ops []
+    (SlidingLate.wmInv_init size slide ooo lateness) hl (by intro e he; cases he)
+  rw [List.nil_append] at hreg
+  rcases hreg e he hfirst with ⟨f, hf, hs, hc⟩ | hb
+  · rw [hlat] at hc
+    have hop : Tumbling.stillOpen (Sliding.wmAfter (SlidingLate.run (SlidingLate.init size slide ooo lateness) ops).1.base r now).cur f = true := by
+      unfold Tumbling.stillOpen
+      split
+      · rfl
+      · rename_i c hcur
+        have := hopen c hcur
+        simp only [decide_eq_true_eq]; omega
+    obtain ⟨e', he', hst, hk⟩ := SlidingLate.every_open_window_redelivered _ r now none hlate (by rw [hlat]; exact hl) f hf
+      (by rw [hs]; exact hin) hop
+    exact ⟨e', he', by rw [hst, hs], hk⟩
+  · exfalso
+    rw [hlat] at hb
+    obtain ⟨y, hy, hle⟩ := Tumbling.updateEventTime_cur _ r.ts now _ hb
+    have := hopen y hy
+    omega
+
 end sliding
 
 /-! ### session -/
@@ -375,5 +412,17 @@ example : ((run (init 5 0 30) sessOps).1.trig.map (fun t => (t.sess.start, t.ses
 example : (stepAdd (run (init 5 0 30) sessOps).1 ['a'] ⟨5, 92⟩ 1000000).2.map (fun e => (e.late, e.start, e.stop, e.rows.map (·.id)))
     = [(true, 90, 95, [1, 5])] := by decide
 end sessionDemo
+
+section slidingDemo
+open SlidingLate
+/-- non-vacuity of `sliding_late_row_redelivered_run`: [1000,1020) fires, stays open until the watermark reaches 1070; the
+late row 3 @ 1007 arrives with the watermark at 1045 and re-delivers it -/
+def slideOps : List Sliding.Op :=
+  [.add ⟨1, 1005⟩ 1000000, .add ⟨2, 1045⟩ 1000000, .pop, .iter, .pop, .iter, .iter, .iter, .iter, .iter]
+example : (run (init 20 10 0 50) slideOps).2.map (fun e => (e.start, e.stop, e.rows.map (·.id))) = [(1000, 1020, [1])] := by decide
+example : Sliding.lateNow (run (init 20 10 0 50) slideOps).1.base ⟨3, 1007⟩ 1000000 = true := by decide
+example : (Sliding.wmAfter (run (init 20 10 0 50) slideOps).1.base ⟨3, 1007⟩ 1000000).cur = some 1045 := by decide
+example : (stepAdd (run (init 20 10 0 50) slideOps).1 ⟨3, 1007⟩ 1000000 none).2.map (fun e => (e.start, e.rows.map (·.id))) = [(1000, [1, 3])] := by decide
+end slidingDemo
 
 end C02
